@@ -114,7 +114,7 @@ def reference(call):
 
 class Prop(E2Prop):
     id = "C17"
-    lean_modules = ["LokyModel.Props.C17"]
+    lean_modules = ["LokyModel.Props.C17", "LokyModel.Props.C17More"]
     driver = "cpucount_driver"
     n_cases = {"quick": 30000, "thorough": 600000}
     search_cases = {"quick": 30000, "thorough": 300000}
